@@ -2044,6 +2044,10 @@ func (d *Document) parseDocument() error {
 	}
 
 done:
+	if d.Body == nil {
+		// 主文档部件为空、根元素不是 w:document 或使用了其他命名空间
+		return WrapError("parse_document", ErrInvalidDocument)
+	}
 	Infof("解析完成，共 %d 个元素", len(d.Body.Elements))
 	return nil
 }
